@@ -104,13 +104,13 @@ def path_concrete(ctx):
     def rel(a, b):
         return abs(a - b) <= 1e-9 * max(abs(a), abs(b), 1e-300)
 
-    for a in (0.5, 1, 2.5, 3):
+    for a in (0.5, 1, 2.5, 3, 40):
         p = ctx.guard("factory-raised", exponential, a)
         bad = [k for k in range(0, 12) if not rel(float(ctx.guard("pmf-raised", p, k)), (1 - math.exp(-a)) * math.exp(-a * k))]
         ctx.require(not bad, "concrete-parameters", f"exponential({a!r}) deviates at k={bad}", sig="concrete:exponential")
-    for m in (0.5, 1, 3, 7.25):
+    for m in (0.5, 1, 3, 7.25, 10, 12, 25):
         p = ctx.guard("factory-raised", poisson, m)
-        bad = [k for k in range(0, 15) if not rel(float(ctx.guard("pmf-raised", p, k)), math.exp(-m) * m ** k / math.factorial(k))]
+        bad = [k for k in range(0, 45) if not rel(float(ctx.guard("pmf-raised", p, k)), math.exp(-m) * float(m) ** k / math.factorial(k))]
         ctx.require(not bad, "concrete-parameters", f"poisson({m!r}) deviates at k={bad}", sig="concrete:poisson")
     for al in (2, 2.5, 3, 4, 4.0, 6):
         p = ctx.guard("factory-raised", power_law, al)
@@ -125,7 +125,7 @@ def path_concrete(ctx):
         tot = sum(float(p(k)) for k in range(1, j + 1))
         ctx.require(not bad and abs(tot - 1) < 1e-9, "concrete-parameters", f"power_law({al!r}) deviates at k={bad}; sum over the truncated support = {tot}",
                     sig="concrete:power_law")
-    for al, ka in ((2, 10), (2.5, 5.0), (3, 2), (4, 50), (2.0, 0.7)):
+    for al, ka in ((2, 10), (2.5, 5.0), (3, 2), (4, 50), (2.0, 0.7), (2, 0.05), (3.5, 0.07)):
         p = ctx.guard("factory-raised", scale_free_cut_off, al, ka)
         z = math.exp(-1.0 / ka)
         C, j, zk = 0.0, 1, z
